@@ -118,6 +118,7 @@ type c04Stream struct {
 	writes    int
 	writeFail int
 	reset     bool
+	onConn    func() // called on every Conn() (lets a harness hold the caller at a chosen call)
 }
 
 func (s *c04Stream) Read(p []byte) (int, error) { return s.rd.Read(p) }
@@ -132,7 +133,12 @@ func (s *c04Stream) Write(p []byte) (int, error) {
 }
 func (s *c04Stream) Close() error      { return nil }
 func (s *c04Stream) Reset() error      { s.reset = true; return nil }
-func (s *c04Stream) Conn() network.Conn { return s.conn }
+func (s *c04Stream) Conn() network.Conn {
+	if s.onConn != nil {
+		s.onConn()
+	}
+	return s.conn
+}
 
 func c04FrameBytes(f c04Frame) []byte {
 	var payload []byte
